@@ -41,6 +41,8 @@ type spec struct {
 	FNP    bool   `json:"fnp,omitempty"`   // fail-no-peers also set
 	WithDL bool   `json:"with_dl,omitempty"`
 	Left   bool   `json:"left,omitempty"` // fnp-none: a peer was connected and left before the call
+	// SurvZero: SURVEYOR with survey time 0 (no limit) instead of a long one: the receive deadline is then the only timer
+	SurvZero bool `json:"surv_zero,omitempty"`
 }
 
 func (s spec) D() time.Duration { return time.Duration(s.DUs) * time.Microsecond }
@@ -163,6 +165,10 @@ func genCases(rnd *rand.Rand, thorough bool) []mon.CaseSpec {
 						s.FNP = pr != "none" && pr != "vt-leave"
 					}
 					add(s)
+					if o.proto == "surveyor" && pr == "vt" {
+						s.SurvZero = true
+						add(s)
+					}
 				}
 			}
 			for i := 0; i < 2; i++ {
